@@ -1,2 +1,3 @@
 -- Root of the library: every model, proof and property module.
 import MuduoVerif.Props.C10
+import MuduoVerif.Props.C20
